@@ -991,7 +991,14 @@ class TriaMesh:
             import time
 
             startt = time.time()
+            nlast = 0
             while len(v.data) < tdim:
+                if len(v.data) == nlast:
+                    # flood stalled: start next connected component at first
+                    # tria that has not been reached yet
+                    seed = np.setdiff1d(np.arange(tdim), v.indices)[0]
+                    v = v + tmat[:, seed]
+                nlast = len(v.data)
                 count = count + 1
                 v = tmat * v
                 v.data = np.sign(v.data)
